@@ -474,6 +474,11 @@ class Sim:
             "presel": [[_n(getattr(o, "to_displace_labels", None)), _n(getattr(o, "to_delete_label", None)),
                         getattr(o, "to_add_atoms", None) is not None] for o in self.objs],
             "template": None if self.template is None else {k: v.tolist() for k, v in sorted(self.mc.context.exchange_atoms.arrays.items())},
+            # Hamiltonian contexts: between trials the kinetic reference is the kinetic energy of the momenta the atoms carry
+            # (nothing of an abandoned trajectory stays in it)
+            "ke_reference_current": None if not hasattr(self.mc.context, "last_kinetic_energy") or "momenta" not in a.arrays
+            else bool(abs(float(self.mc.context.last_kinetic_energy) - float(a.get_kinetic_energy()))
+                      <= 1e-9 * max(1.0, abs(float(a.get_kinetic_energy())))),
             "ctx": {"added": [int(i) for i in getattr(self.mc.context, "_added_indices", [])],
                     "deleted": [int(i) for i in getattr(self.mc.context, "_deleted_indices", [])],
                     "delta": int(getattr(self.mc.context, "particle_delta", 0)),
@@ -746,6 +751,21 @@ def gen_case(rng, ens, tier, max_trials=None):
             tr["presel"] = [[x0, "X", lab], [x1, rng.choice(["A", "A", "B"])]]
         trials.append(tr)
     case["trials"] = trials
+    if rng.random() < 0.12:
+        # labels are identifiers, not small numbers: the same case with every non-negative label shifted by 10^6 (close
+        # large identifiers are still different particles)
+        big = 10**6
+        for o in objs:
+            o["labels"] = [l + big if l >= 0 else l for l in o["labels"]]
+            if o.get("label_dtype") in ("int16", "uint16", "uint8"):
+                o["label_dtype"] = "int64"     # (identifiers of that size do not fit the narrow dtypes)
+            if o.get("default_label") is not None and o["default_label"] >= 0:
+                o["default_label"] += big
+        for tr in trials:
+            for p in tr["presel"]:
+                if len(p) == 3 and p[2] is not None and p[2] >= 0:
+                    p[2] += big
+        case["big_labels"] = True
     return case
 
 
